@@ -51,6 +51,23 @@ def run(prop, tier, seed, workdir):
         key = rnd.choice(arr) if arr and rnd.random() < 0.6 else 201
         meta[cid] = (op, arr, sz, key, 0)
         lines.append("%d %s %d %d %d %d %s" % (cid, op, 0, n, sz, key, " ".join(map(str, arr))))
+    # every nmemb up to a few Leonardo orders (the heap shapes of the smoothsort differ with every nmemb: which orders exist, which
+    # heap is trinkled with a stepson, which is the last one), a few keys so that ties and "child > stepson > new element" relations occur
+    import itertools
+    if tier == "quick":
+        for pat in itertools.product((0, 1, 2), repeat=8):          # one more nmemb than the model's patterns, one element size
+            cid += 1
+            meta[cid] = ("q", list(pat), 4, 0, 0)
+            lines.append("%d q 0 8 4 0 %s" % (cid, " ".join(map(str, pat))))
+    nshape = (8, 72, 40) if tier == "quick" else (8, 180, 300)
+    for n in range(nshape[0], nshape[1]):
+        for _ in range(nshape[2]):
+            arr = [rnd.randint(0, 7) for _ in range(n)]
+            sz = rnd.choice((1, 4, 8, 24))
+            cid += 1
+            meta[cid] = ("q", arr, sz, 0, 0)
+            lines.append("%d q 0 %d %d 0 %s" % (cid, n, sz, " ".join(map(str, arr))))
+    nbig += (nshape[1] - nshape[0]) * nshape[2]
     b = build.ensure(["slack"], [("hsort", "slack")])
     exe = b[("hsort", "slack")]
     k = 16
@@ -89,7 +106,7 @@ def run(prop, tier, seed, workdir):
         distinct_nontrivial=len({(m[0], tuple(m[1])) for m in meta.values() if len(m[1]) >= 2}),
         rule="TLC enumerates every key pattern over {0,1,2} for nmemb 0..%d (qsort_s) and every sorted pattern x searched key incl. an absent one (bsearch_s) and "
              "checks the contract operators for consistency; each pattern is executed for element sizes %s with the array flush against the trailing and the "
-             "leading guard page, the comparator recording every call whose pointers are not elements of the array or whose context is wrong; plus %d seeded "
+             "leading guard page (plus, in the quick tier, every pattern of nmemb 8 at size 4, and seeded arrays over 8 keys for every nmemb of a range of Leonardo heap shapes), the comparator recording every call whose pointers are not elements of the array or whose context is wrong; plus %d seeded "
              "random arrays up to nmemb 2000; TraceSort.tla requires a sorted permutation (by per-element tags and filler bytes), no foreign comparator "
              "argument, no write outside nmemb*size. non-trivial = distinct patterns with nmemb >= 2" % (maxn, sizes, nbig),
         samples=[dict(op=meta[i][0], keys=meta[i][1][:16], size=meta[i][2]) for i in (1, len(meta) // 2, len(meta))], exhaustive=True,
